@@ -11,6 +11,7 @@ import (
 
 	"verifharness/internal/catalog"
 	"verifharness/internal/driver"
+	"verifharness/internal/quiesce"
 	"verifharness/internal/rec"
 	"verifharness/internal/run"
 	"verifharness/internal/sched"
@@ -118,6 +119,14 @@ func plan(tier string, seed int64) []driver.Case {
 		cases = append(cases, driver.Case{ID: fmt.Sprintf("chain/%d/%s/%s", i, strings.Join(names, ">"), sc.String()), P: map[string]string{"kind": "chain", "chain": strings.Join(names, ">"), "scripts": sc.String(), "mode": "unsafe"}})
 	}
 	// Pipe / PipeN / PipeOp / PipeOpN / manual nesting must be observationally identical, every arity 1..25
+	// (synchronous operators only: this differential is about the composition plumbing, and a synchronous
+	// chain's trace is complete when Subscribe returns)
+	var syncModelled []*catalog.Entry
+	for _, e := range modelled {
+		if !(e.Flags.Has(catalog.Async) || e.Flags.Has(catalog.HandOff) || e.Flags.Has(catalog.TimeDriven)) {
+			syncModelled = append(syncModelled, e)
+		}
+	}
 	for arity := 1; arity <= 25; arity++ {
 		reps := 4
 		if tier == "thorough" {
@@ -126,7 +135,7 @@ func plan(tier string, seed int64) []driver.Case {
 		for k := 0; k < reps; k++ {
 			names := make([]string, arity)
 			for j := range names {
-				names[j] = modelled[rng.Intn(len(modelled))].Name
+				names[j] = syncModelled[rng.Intn(len(syncModelled))].Name
 			}
 			sc := randScript(rng, 1+rng.Intn(6))
 			cases = append(cases, driver.Case{ID: fmt.Sprintf("pipe/%d/%d/%s", arity, k, sc.String()), P: map[string]string{"kind": "pipe", "chain": strings.Join(names, ">"), "scripts": sc.String()}})
@@ -276,15 +285,6 @@ func runPipe(c driver.Case) driver.Result {
 		}
 		r := rec.New(forms[f])
 		sub := o.Subscribe(rec.Raw[int](r))
-		needs := false
-		for _, e := range chain {
-			if e.Flags.Has(catalog.Async) || e.Flags.Has(catalog.HandOff) || e.Flags.Has(catalog.TimeDriven) {
-				needs = true
-			}
-		}
-		if needs {
-			run.WaitOutcome(r, false, 3*time.Second)
-		}
 		traces = append(traces, r.TraceString())
 		res.Events += int64(r.Len())
 		func() { defer func() { recover() }(); sub.Unsubscribe() }()
@@ -334,9 +334,26 @@ func runCase(c driver.Case) driver.Result {
 		o = run.Opts{Entry: chain[0], Chain: chain[1:], Scripts: scripts, Mode: c.Get("mode")}
 		exp, hasModel = chainModel(chain, scripts[0])
 	}
+	o.NoWait = true
 	res := run.Seq(o)
 	defer res.Cleanup()
-	dirty := !res.Settled
+	dirty := false
+	if asyncFlags(o) {
+		want := -1
+		if hasModel {
+			want = len(exp.Vals)
+			if exp.Term.K != rec.Next {
+				want++
+			}
+		}
+		if want != 0 || !hasModel {
+			run.WaitEvents(res.Rec, want, 3*time.Second, 8*time.Second)
+		} else {
+			run.WaitEvents(res.Rec, 1, 300*time.Millisecond, time.Second) // nothing expected: give surplus callbacks a chance
+		}
+		_, ok := quiesce.Settle(200 * time.Millisecond)
+		dirty = !ok
+	}
 	ev := res.Rec.Events()
 	r := driver.Result{Verdict: driver.Held, Events: int64(len(ev)), Nontrivial: len(ev) > 0, Sig: name + "→" + res.Rec.TraceString(), Dirty: dirty}
 	r.Sample = map[string]string{"scripts": c.Get("scripts"), "trace": res.Rec.TraceString(), "expected": exp.String()}
@@ -364,6 +381,14 @@ func runCase(c driver.Case) driver.Result {
 		return r
 	}
 	return r
+}
+
+func asyncFlags(o run.Opts) bool {
+	fl := o.Entry.Flags
+	for _, c := range o.Chain {
+		fl |= c.Flags
+	}
+	return fl.Has(catalog.Async) || fl.Has(catalog.HandOff) || fl.Has(catalog.TimeDriven)
 }
 
 func famOf(name string) string {
